@@ -637,5 +637,49 @@ func verifFiles(t *testing.T, tier string) {
 		}
 	}
 	rec(nil)
-	fmt.Printf("BOUNDED-RESULT {\"cases\": %d, \"failures\": %d, \"bound\": \"every argument list of length <= %d over 3 files in bare and labelled forms, with and without AllowLabels\", \"exhaustive\": true}\n", n, fails, maxLen)
+	// standard input: named by "-" (when allowed), or implied by an empty list; its label is "-"
+	// unless relabelled, and "-#k" only when "-" is given several times
+	stdinCases := []struct {
+		args   []string
+		labels bool
+		want   string
+	}{
+		{nil, false, "-"}, {nil, true, "-"}, {[]string{"-"}, false, "-"}, {[]string{"-"}, true, "-"},
+		{[]string{"in=-"}, true, "in"}, {[]string{"a", "-"}, true, "PATHa,-"}, {[]string{"-", "a", "a"}, false, "-,PATHa#0,PATHa#1"},
+	}
+	for _, c := range stdinCases {
+		n++
+		r, w, err := os.Pipe()
+		if err != nil {
+			t.Fatal(err)
+		}
+		w.WriteString("BenchmarkIn 1 7 ns/op\n")
+		w.Close()
+		saved := os.Stdin
+		os.Stdin = r
+		var real []string
+		for _, a := range c.args {
+			if p, ok := paths[a]; ok {
+				real = append(real, p)
+			} else {
+				real = append(real, a)
+			}
+		}
+		f := Files{Paths: real, AllowStdin: true, AllowLabels: c.labels}
+		var got []string
+		for f.Scan() {
+			if res, ok := f.Result().(*Result); ok {
+				got = append(got, res.GetConfig(".file"))
+			}
+		}
+		os.Stdin = saved
+		r.Close()
+		want := strings.ReplaceAll(c.want, "PATHa", paths["a"])
+		if err := f.Err(); err != nil {
+			bad("standard input, args %v: %v", c.args, err)
+		} else if strings.Join(got, ",") != want {
+			bad("standard input, args %q (labels allowed: %v): .file labels %q, want %q", c.args, c.labels, got, want)
+		}
+	}
+	fmt.Printf("BOUNDED-RESULT {\"cases\": %d, \"failures\": %d, \"bound\": \"every argument list of length <= %d over 3 files in bare and labelled forms, with and without AllowLabels; 7 argument lists with standard input (implied, named, relabelled, mixed with files)\", \"exhaustive\": true}\n", n, fails, maxLen)
 }
